@@ -54,7 +54,7 @@ Definition parse_schema (fs : list field) : option (list Z * schema * list field
   | FB root :: FZ nm :: r =>
     if negb (count_ok nm) then None else
     match parse_mdescs (Z.to_nat nm) r with
-    | Some (S, r') => Some (root, S, r')
+    | Some (sc, r') => Some (root, sc, r')
     | None => None
     end
   | _ => None
